@@ -211,12 +211,13 @@ Proof. reflexivity. Qed.
 
 (* numeric and A1-style / sheet-title addressing name the same cell *)
 Theorem addressing_agree ts n i l k d z :
-  title_index ts n = Ok i -> column_index_from_string l = Ok k -> d <> ""%string -> int_of_string d = Ok z ->
+  title_index ts n = Ok i -> column_index_from_string l = Ok k -> d <> ""%string -> int_of_string d = Ok z -> 1 <= z ->
   handle ts {| a_t := TName n; a_c := CLetters l; a_r := RDigits d |} =
   handle ts {| a_t := TIdx i; a_c := CIdx (k - 1); a_r := RIdx (z - 1) |}.
 Proof.
-  intros H1 H2 H3 H4. unfold handle. cbn [a_t a_c a_r]. rewrite H1, H2, H4.
-  assert (E : String.eqb d "" = false) by (apply String.eqb_neq; exact H3). rewrite E. reflexivity.
+  intros H1 H2 H3 H4 Hz. unfold handle. cbn [a_t a_c a_r]. rewrite H1, H2, H4.
+  assert (E : String.eqb d "" = false) by (apply String.eqb_neq; exact H3). rewrite E. cbn [bind].
+  destruct (z - 1 <? 0) eqn:N; [apply Z.ltb_lt in N; lia|reflexivity].
 Qed.
 
 (* sizes: a successful set_cells only grows the sizes, keeps their number, and covers every cell it wrote *)
